@@ -65,6 +65,56 @@ fn main() {
         }
         return;
     }
+    if args[1] == "helper" {
+        // reach (used, peak, limit), call reset_max / get_max / set_limit, observe through the public API
+        let limit: usize = args[2].parse().unwrap();
+        let used: usize = args[3].parse().unwrap();
+        let peak: usize = args[4].parse().unwrap();
+        let which = args[5].as_str();
+        let new_limit: usize = args[6].parse().unwrap();
+        unsafe {
+            let a = kani_alloc::AllocT::new(usize::MAX / 2);
+            let l1 = Layout::from_size_align(used.max(1), 1).unwrap();
+            let p1 = if used > 0 { a.alloc(l1) } else { std::ptr::null_mut() };
+            if peak > used {
+                let l2 = Layout::from_size_align(peak - used, 1).unwrap();
+                let p2 = a.alloc(l2);
+                a.dealloc(p2, l2);
+            }
+            let _ = p1;
+            a.set_limit(limit);
+            let mut ret = 0usize;
+            match which {
+                "reset_max" => a.reset_max(),
+                "get_max" => ret = a.get_max(),
+                _ => a.set_limit(new_limit),
+            }
+            let peak_after = a.get_max();
+            // probe the limit in force: the largest request that must succeed and the smallest that must fail
+            let lim = if which == "set_limit" { new_limit } else { limit };
+            let room = lim.saturating_sub(used);
+            let mut fits = true;
+            if room > 0 && room <= (1 << 24) {
+                let l = Layout::from_size_align(room, 1).unwrap();
+                let p = a.alloc(l);
+                fits = !p.is_null();
+                if fits {
+                    a.dealloc(p, l);
+                }
+            }
+            let l = Layout::from_size_align(room + 1, 1).unwrap();
+            let p = if room < (1 << 24) { a.alloc(l) } else { std::ptr::null_mut() };
+            let over_refused = p.is_null();
+            if !over_refused {
+                a.dealloc(p, l);
+            }
+            a.reset_max();
+            let used_after = a.get_max();
+            println!("{{\"outcome\":\"ok\",\"ret\":{},\"peak_after\":{},\"used_after\":{},\"fits\":{},\"over_refused\":{}}}",
+                     ret, peak_after, used_after, fits, over_refused);
+        }
+        return;
+    }
     if args[1] == "stress" {
         let op1 = args[2].clone();
         let op2 = args[3].clone();
